@@ -42,15 +42,31 @@ class InMemorySubscription(Subscription):
     are drained, the iterator exits. Calling close() stops iteration early.
     """
 
-    def __init__(self, queues: Dict[str, tuple[deque, threading.Lock]], pattern: str):
+    def __init__(
+        self,
+        queues: Dict[str, tuple[deque, threading.Lock]],
+        pattern: str,
+        queues_lock: Optional[threading.Lock] = None,
+    ):
         """
         Args:
-            queues:   Shared mapping of channel -> (deque of Message, Lock)
-            pattern:  Channel pattern to match (exact name or wildcard)
+            queues:       Shared mapping of channel -> (deque of Message, Lock)
+            pattern:      Channel pattern to match (exact name or wildcard)
+            queues_lock:  Lock guarding creation/removal of channels in ``queues``
         """
         self._queues = queues
         self._pattern = pattern
+        self._queues_lock = queues_lock
         self._closed = False
+
+    def _discard_if_empty(self, channel: str, q: deque) -> None:
+        """Forget a drained channel so one-shot channels (e.g. ``jobs.<id>.status``) do not pile up."""
+        if self._queues_lock is None:
+            return
+        with self._queues_lock:
+            entry = self._queues.get(channel)
+            if entry is not None and entry[0] is q and not q:
+                del self._queues[channel]
 
     def __iter__(self):
         """
@@ -71,6 +87,7 @@ class InMemorySubscription(Subscription):
                     with lock:
                         msg = q.popleft() if q else None
                     if msg:
+                        self._discard_if_empty(channel, q)
                         found = True
                         yield msg
                         break  # yield one message at a time
@@ -151,16 +168,18 @@ class InMemorySemantivaTransport(SemantivaTransport):
         Returns:
             Future if require_ack=True, else None.
         """
-        with self._queues_lock:
-            q, lock = self._queues[channel]
         msg = Message(
             data=data,
             context=context,
             metadata=metadata or {},
             ack=lambda: None,  # No-op ack for in-memory
         )
-        with lock:
-            q.append(msg)
+        # Channel lookup and append happen under the channel-table lock so that a
+        # subscriber cannot discard the (momentarily empty) channel in between.
+        with self._queues_lock:
+            q, lock = self._queues[channel]
+            with lock:
+                q.append(msg)
 
         if require_ack:
             fut: Future = Future()
@@ -184,7 +203,7 @@ class InMemorySemantivaTransport(SemantivaTransport):
             InMemorySubscription instance for manual iteration if no callback,
             or a subscription with callback-driven background thread.
         """
-        sub = InMemorySubscription(self._queues, channel)
+        sub = InMemorySubscription(self._queues, channel, self._queues_lock)
 
         if callback:
             # Launch a daemon thread that pushes each Message to the callback
